@@ -450,6 +450,10 @@ def pred_c09(tr, story):
             closed_fatal = p["fatal"]
             pending_at_close = {int(w[1:]) for ws in pj["table"].values() for w in ws if w.startswith("c") and w[1:].isdigit()}
         for o in obs:
+            # a synchronous entry point (send_messages, force_disconnect, ...) raising something outside the hierarchy
+            if o.startswith("X") and o != "XRT" and not o.startswith("XL.") and label.split(":")[0] in ("send", "force", "call", "wake"):
+                v.append(("C09/raw-error", f"{label} raised {o[1:]}, not an error of the library's connection-error hierarchy", i))
+        for o in obs:
             if not (o.startswith("T") and "=" in o):
                 continue
             tid, res = o[1:].split("=", 1)
@@ -535,6 +539,13 @@ def window_stories():
     for tail in ([H(DISC_REQ)], [H(DISC_REQ), H(SWITCH_STATE, tag=1), H(PING_REQ)], [H(SWITCH_STATE, valid=0)], [("bp", 1)]):
         story(connect_prefix() + [("data", hello_frames() + tail)])
         story(connect_prefix(login=True) + [("data", hello_frames(True) + tail)], login=True)
+        # ... followed by a command and a request: whatever the connect phase made of it, they fail with a library error
+        story(connect_prefix() + [("data", hello_frames() + tail), ("drain",), ("send", [33]), CALLS[0]])
+        story(connect_prefix(login=True) + [("data", hello_frames(True) + tail), ("drain",), ("send", [33]), CALLS[0]], login=True)
+        # ... and the caller's coroutine sending a command as soon as finish_connection() has returned (probe: implementation only)
+        for lg in (False, True):
+            pre = [("start",), ("drain",), ("resolved", None, 1), ("drain",), ("tcp", None), ("drain",), ("finish", int(lg), "then-send"), ("drain",)]
+            story(pre + [("data", hello_frames(lg) + tail)], login=lg, probe=True)
     for cause in CLOSE_CAUSES:
         for hops in (0, 1, 2):
             story(connect_prefix() + [("hop", hops, ("data", hello_frames())), ("hop", hops, cause)])
@@ -722,7 +733,7 @@ def run(rep, tier, seed, prop, vfile, rule):
                 tr3 = connstories.run_impl(small)
                 rep.violation(sig, what, {"kind": "impl-trace", "story": story_text(small),
                                           "callbacks": [(l, p, o) for l, p, o in tr3.steps][-40:]})
-            if dis or problems:
+            if (dis or problems) and not st.get("probe"):
                 disagreements.append({"story": story_text(st), "disagreement": dis, "problems": [list(map(str, p)) for p in problems[:2]]})
     rep.coverage["disagreements"] = len(disagreements)
     if disagreements and not rep.violations:
